@@ -253,3 +253,32 @@ _amend("C19", "level", "gcc depfile argument handling (raise without targets, on
 _amend("C20", "level", "default literals agreeing (library and CLI),",
        "default literals agreeing (library and CLI), the codec used when none is given evaluated at every decoding site by constant "
        "propagation and required to be the same,")
+
+
+# Amendments after round 3 (normalisation, semantic rule forms, new rules)
+NOTES = NOTES + (
+    " Before the rules run, every function that differs from the reference vocabulary (sa/vocab.json) is normalised by meaning-preserving "
+    "rewrites with checked side conditions (inlining of new helpers, propagation of new constants and pure aliases, un-chaining, table and "
+    "per-class specialisation, store forwarding, alignment of renamed locals/attributes - sa/normalize.py, DESIGN 9.8), so that a "
+    "behaviour-preserving refactoring is analysed in the vocabulary the rules were confirmed in. The thorough tier additionally replays "
+    "the stored seeded defects and stored behaviour-preserving refactorings of the property as controls."
+)
+_amend("C13", "level", "the transition table of the counting loop (initial value, +1/-1 under the right tests by linear-form normalisation, single exit on 0, one token per iteration)",
+       "the counting loop decided by interpreting its source over every short script of {opener, closer, other} tokens (returns right after the balancing closer, "
+       "fetches exactly the skipped tokens, two bracket pairs), token-type must-facts for which token opens a skipped region and for what restarts the "
+       "constructor-initializer scan")
+_amend("C02", "level", "per-iteration flags.",
+       "per-iteration flags; the grouping-parenthesis test admits every prefix operator the declarator parser handles; the parenthesis group after a parameter's type is dropped only under a test of its contents.")
+_amend("C02", "note", "Trusted: Union annotations in types.py.",
+       "Trusted: Union annotations in types.py. One genuine finding is listed (parameter parentheses dropped unseen, D30); one defect was repaired ('(&&name)' groups).")
+_amend("C01", "level", "parameter index of abbreviated templates,",
+       "parameter index of abbreviated templates (computed where it is evaluated) and their promotion into the last template header,")
+_amend("C14", "level", "and the line-end test that bounds pragma contents (shared with C09).",
+       "the line-end test that bounds pragma contents (shared with C09), and no token reported both as a flag and inside a value.")
+_amend("C14", "note", "One genuine finding is listed (D2:", "Two genuine findings are listed (D28: 'sizeof...' argument reported as a pack, pinned by a test; D2:")
+_amend("C20", "level", "JSON dump = asdict of the unmodified result,",
+       "JSON dump = asdict of the unmodified result, no preprocessor in the dumped configuration unless one was asked for (finite-domain evaluation of the mode/flag arguments),")
+_amend("C17", "level", "comma lists well formed, Parameter form;",
+       "comma lists well formed with a C variadic as a list item of its own, Parameter form, every type-id position (parameter, alias) accepting the array suffix format() writes;")
+_amend("C17", "note", "three defects were repaired (reference to function, array dimension order, pointer/reference/function around pointer-to-array/function).",
+       "six defects were repaired (reference to function, array dimension order, pointer/reference/function around pointer-to-array/function, variadic after parameters, alias of an array type, rvalue reference to array/function).")
